@@ -1248,6 +1248,10 @@ func toString(v interface{}) string {
 	case []byte:
 		return string(val)
 	case fmt.Stringer:
+		if isNilPointer(val) {
+			// a typed nil pointer whose String method has a value receiver cannot be called
+			return ""
+		}
 		return val.String()
 	}
 
@@ -1262,6 +1266,12 @@ func toString(v interface{}) string {
 	}
 
 	return formatWithoutAddresses(v)
+}
+
+// isNilPointer reports whether v is a nil pointer wrapped in an interface
+func isNilPointer(v interface{}) bool {
+	rv := reflect.ValueOf(v)
+	return rv.Kind() == reflect.Ptr && rv.IsNil()
 }
 
 func toInt(v interface{}) (int, error) {
